@@ -23,6 +23,9 @@ pub struct MemFs {
     pub read_budget: u64,
 }
 
+/// like Linux: a longer path cannot be opened
+pub const PATH_MAX: usize = 4096;
+
 pub const MEMFS_BUDGET_MSG: &str = "verif: MemFs read budget exceeded";
 
 impl MemFs {
@@ -66,7 +69,10 @@ impl FileSystem for MemFs {
         if self.reads.get() > self.read_budget {
             panic!("{}", MEMFS_BUDGET_MSG);
         }
-        self.files.get(&file_path.0).cloned()
+        if file_path.0.as_os_str().len() >= PATH_MAX {
+            return None; // ENAMETOOLONG
+        }
+        self.files.get(&lexical(&file_path.0)).cloned()
     }
 }
 
@@ -131,7 +137,7 @@ impl RefHost {
     }
 
     pub fn text_of(&self, id: FileId) -> &str {
-        self.texts.get(self.fs.path_of(id)).map(|s| s.as_str()).unwrap_or("")
+        self.texts.get(&lexical(self.fs.path_of(id))).map(|s| s.as_str()).unwrap_or("")
     }
 
     fn lsp_range(&self, file: FileId, range: TextRange) -> String {
@@ -259,13 +265,26 @@ impl RefHost {
     }
 }
 
-/// "/w/./b.td" and "/w/b.td" are the same file (URLs drop "." segments anyway).
-pub fn norm_path(p: &str) -> String {
-    let mut s = p.to_string();
-    while let Some(i) = s.find("/./") {
-        s.replace_range(i..i + 2, "");
+/// "/w/./b.td", "/w/sub/../b.td" and "/w/b.td" name the same file: "." segments are dropped
+/// and ".." segments resolved lexically (the generators only write ".." through directories
+/// that exist, so this agrees with what a real file system does).
+pub fn lexical(path: &Path) -> PathBuf {
+    use std::path::Component;
+    let mut out = PathBuf::new();
+    for c in path.components() {
+        match c {
+            Component::CurDir => {}
+            Component::ParentDir => {
+                out.pop();
+            }
+            c => out.push(c.as_os_str()),
+        }
     }
-    s
+    out
+}
+
+pub fn norm_path(p: &str) -> String {
+    lexical(Path::new(p)).to_string_lossy().into_owned()
 }
 
 // ------------------------------------------------------------------ wire projections
